@@ -15,6 +15,11 @@ func (app *App) CheckAsyncSwitchAllowed(node *mysql.Node, switchover *Switchover
 			app.logger.Error().Err(err).Msg("failed to get mdb repl mon ts")
 			return false
 		}
+		if ts == "" {
+			// the timestamp has never been published: the delay is unknown, not zero
+			app.logger.Warn().Msg("mdb repl mon ts is not published yet, new master delay is unknown")
+			return false
+		}
 		delay, err := node.CalcReplMonTSDelay(app.config.ReplMonSchemeName, app.config.ReplMonTableName, ts)
 		if err != nil {
 			app.logger.Error().Err(err).Msg("failed to calc mdb repl mon ts")
